@@ -209,7 +209,7 @@ func Run(tier string) {
 	rec := ageflow.Start(run.Pick(30000, 150000)) // every Encrypt/Decrypt below is also replayed through AgeFlow.tla
 	run.Rule("TLC (AgeCore.tla, mode tamper) enumerates, for every recipient list in bound, every structural edit of the header (per-stanza substitutions of type/arguments/body/wrapped key/addressee, insertion of grease and attacker-made stanzas at every position, deletion, duplication at every position, all permutations) x MAC choice (kept, random, recomputed under the attacker's file key) x identity list, checks HeaderBound/NewFileOnly on the symbolic model and emits the expected outcome; each edit is applied to a real header (parsed, edited, re-marshalled, MAC recomputed through the format term) and decrypted with the listed identities. Byte level: every single-bit flip of the header bytes of 1-3 recipient files and every inserted-byte/line-ending variant, decrypted with every identity that opens the original. Distinct = (recipient list, edit, MAC, identities).")
 	run.Assume("perfect cryptography in the symbolic model; an attacker-made stanza wraps the attacker's own file key (it cannot know the file's)")
-	keys := []string{"x1", "x2", "e1", "r1"}
+	keys := []string{"x1", "x2", "e1", "r1", "s1"} // s1: a passphrase file (one stanza, its own MAC path)
 	maxR, maxI := 2, 1
 	if run.Thorough() {
 		maxR, maxI = 3, 2
@@ -291,7 +291,7 @@ func Run(tier string) {
 
 // byteLevel: bit flips and inserted bytes in the real header bytes.
 func byteLevel(run *vk.Run, w *world.World, pt []byte) {
-	lists := [][]string{{"x1"}, {"x1", "e1"}, {"e1", "x1", "x2"}, {"r1", "x1"}}
+	lists := [][]string{{"x1"}, {"x1", "e1"}, {"e1", "x1", "x2"}, {"r1", "x1"}, {"s1"}}
 	rng := mrand.New(mrand.NewSource(run.Seed))
 	for _, l := range lists {
 		var rs []coregen.Recip
